@@ -5,7 +5,7 @@ from .common import both
 
 ID = 'C09'
 TARGETS = ['theories/Properties/C09.vo']
-THEOREMS = ['C09_guard_iff', 'C09_max_value']
+THEOREMS = core.theorems_of(ID)
 LEVEL = ('assert_max_version and MAX_SUPPORTED_VERSION regenerated from src/io/slippi/mod.rs; proved: the guard accepts v iff '
          'v <=lex (3,16,0), for all versions; both real writers are run on zero-frame games of patched versions and must agree with '
          'the guard (quick: boundary slice, thorough: all 2^24 triples for .slp, majors 3-4 for .slpp under each compression)')
